@@ -37,8 +37,8 @@ func TestVerifC11SM2(t *testing.T) {
 	pool := hk.NewPool()
 
 	for iter := 0; iter < hk.N(40, 400); iter++ {
-		d := randScalar(rng)
-		P := refPub(d)
+		d := zvRandScalar(rng)
+		P := zvRefPub(d)
 		px, py, priv := ref.B32(P.X), ref.B32(P.Y), ref.B32(d)
 		id := rng.Bytes(rng.Pick([]int{0, 1, 16, 16, 33, 200}))
 		msg := rng.Bytes(rng.Pick([]int{0, 1, 8, 31, 32, 33, 40, 64, 100, 300}))
@@ -51,21 +51,21 @@ func TestVerifC11SM2(t *testing.T) {
 		}
 		mr, ms := ref.B32(model.R), ref.B32(model.S)
 		eqSig := func(rr, ss []byte, err error) (bool, string) {
-			return err == nil && bytes.Equal(rr, mr) && bytes.Equal(ss, ms), hexOrNil(rr) + "," + hexOrNil(ss) + "," + errStr(err)
+			return err == nil && bytes.Equal(rr, mr) && bytes.Equal(ss, ms), zvHexOrNil(rr) + "," + zvHexOrNil(ss) + "," + zvErrStr(err)
 		}
 		calls := []c11call{
 			{"ZA", [][]byte{id, px, py}, func(v [][]byte) (bool, string) {
 				got, err := ZA(v[0], v[1], v[2])
-				return err == nil && bytes.Equal(got, za), hexOrNil(got)
+				return err == nil && bytes.Equal(got, za), zvHexOrNil(got)
 			}},
 			{"Sign", [][]byte{id, px, py, priv, msg}, func(v [][]byte) (bool, string) {
-				return eqSig(Sign(v[0], v[1], v[2], newScript(stream), v[3], v[4]))
+				return eqSig(Sign(v[0], v[1], v[2], zvNewScript(stream), v[3], v[4]))
 			}},
 			{"SignZa", [][]byte{priv, za, msg}, func(v [][]byte) (bool, string) {
-				return eqSig(SignZa(newScript(stream), v[0], v[1], v[2]))
+				return eqSig(SignZa(zvNewScript(stream), v[0], v[1], v[2]))
 			}},
 			{"SignHashed", [][]byte{priv, e}, func(v [][]byte) (bool, string) {
-				return eqSig(SignHashed(newScript(stream), v[0], v[1]))
+				return eqSig(SignHashed(zvNewScript(stream), v[0], v[1]))
 			}},
 			{"Verify", [][]byte{id, px, py, msg, mr, ms}, func(v [][]byte) (bool, string) {
 				ok, err := Verify(v[0], v[1], v[2], v[3], v[4], v[5])
@@ -81,7 +81,7 @@ func TestVerifC11SM2(t *testing.T) {
 			}},
 			{"DerivePublic", [][]byte{priv}, func(v [][]byte) (bool, string) {
 				x, y, err := DerivePublic(v[0])
-				return err == nil && bytes.Equal(x, px) && bytes.Equal(y, py), hexOrNil(x)
+				return err == nil && bytes.Equal(x, px) && bytes.Equal(y, py), zvHexOrNil(x)
 			}},
 			{"TestPrivateKey", [][]byte{priv}, func(v [][]byte) (bool, string) {
 				c := TestPrivateKey(v[0])
@@ -105,7 +105,7 @@ func TestVerifC11SM2(t *testing.T) {
 				var ok bool
 				var got string
 				p, pm, isFault, addr := hk.Try(func() { ok, got = c.run(v) })
-				det := hk.D{"entry": c.name, "placement": []string{"end-abutting, capacity over the guard page", "start-abutting"}[place], "arg_lengths": lens(c.args), "got": got}
+				det := hk.D{"entry": c.name, "placement": []string{"end-abutting, capacity over the guard page", "start-abutting"}[place], "arg_lengths": zvLens(c.args), "got": got}
 				switch {
 				case p && isFault:
 					det["fault_address"] = fmt.Sprintf("%#x", addr)
@@ -150,7 +150,7 @@ func TestVerifC11SM2(t *testing.T) {
 				var ok bool
 				var got string
 				p, pm, isFault, addr := hk.Try(func() { ok, got = c.run(v) })
-				det := hk.D{"entry": c.name, "placement": "all arguments adjacent in one mapping, " + []string{"first at its start", "last at its end"}[(rot+iter)%2], "first_argument_index": rot, "arg_lengths": lens(c.args), "got": got}
+				det := hk.D{"entry": c.name, "placement": "all arguments adjacent in one mapping, " + []string{"first at its start", "last at its end"}[(rot+iter)%2], "first_argument_index": rot, "arg_lengths": zvLens(c.args), "got": got}
 				switch {
 				case p && isFault:
 					det["fault_address"] = fmt.Sprintf("%#x", addr)
@@ -184,7 +184,7 @@ func TestVerifC11SM2(t *testing.T) {
 				var got string
 				p, pm, _, _ := hk.Try(func() { ok, got = c.run(v) })
 				intact, off, field := rec.Intact()
-				det := hk.D{"entry": c.name, "record_field_order": order, "gap": gap, "arg_lengths": lens(c.args), "got": got}
+				det := hk.D{"entry": c.name, "record_field_order": order, "gap": gap, "arg_lengths": zvLens(c.args), "got": got}
 				switch {
 				case !intact:
 					det["first_modified_record_offset"], det["lies_in_field"] = off, field
@@ -201,7 +201,7 @@ func TestVerifC11SM2(t *testing.T) {
 	}
 }
 
-func lens(a [][]byte) []int {
+func zvLens(a [][]byte) []int {
 	out := make([]int, len(a))
 	for i := range a {
 		out[i] = len(a[i])
